@@ -15,6 +15,7 @@ fn main() {
   let id = args[1].clone();
   let code = match id.as_str() {
     "C01" => runner::dispatch(props::c01::spec(), &args),
+    "C02" => runner::dispatch(props::c02::spec(), &args),
     "C03" => runner::dispatch(props::c03::spec(), &args),
     "C04" => runner::dispatch(props::c04::spec(), &args),
     "C14" => runner::dispatch(props::c14::spec(), &args),
@@ -22,6 +23,7 @@ fn main() {
     "C19" => runner::dispatch(props::c19::spec(), &args),
     "C18" => runner::dispatch(props::c18::spec(), &args),
     "C17" => runner::dispatch(props::c17::spec(), &args),
+    "C20" => runner::dispatch(props::c20::spec(), &args),
     other => {
       eprintln!("unknown property {other}");
       2
